@@ -1,3 +1,4 @@
+import SockModel.Generated.Consts
 /-
 Socket layer used by the TLS glue (C18) and the peer-failure slice (C15):
 `WaitReadable/WaitWritable`, `ReceiveNow`, `Receive`, `SendNow`, `SendAll`,
@@ -199,7 +200,7 @@ Every call is logged (`calls`, newest first). -/
 
 inductive Call where
   | wait (d : Dir) (timeout : Int) (ready : Bool)
-  | send (bs : Bytes) (ans : SendAns)      -- always with the flags of `sendFlags`
+  | send (bs : Bytes) (ans : SendAns) (noSignal : Bool)   -- `noSignal`: MSG_NOSIGNAL is part of `sendFlags`
   | recv (n : Nat) (ans : RecvAns)
   deriving DecidableEq, Repr
 
@@ -219,6 +220,10 @@ structure Script where
 
 def epipe : Nat := 32
 
+/-- the single place the library's `send` flags enter the model: `sendFlags` of socket_impl.cpp, as extracted
+from the source on this run (Generated/Consts.lean) -/
+def sendNoSignal : Bool := SockModel.Consts.sendNoSignal
+
 def Script.world : World Script where
   wait s d t :=
     match s.waits with
@@ -232,10 +237,10 @@ def Script.world : World Script where
         (ready, { s with clock := s.clock + el, calls := .wait d t ready :: s.calls })
   send s bs :=
     match s.sends with
-    | a :: rest => (a, { s with sends := rest, calls := .send bs a :: s.calls })
+    | a :: rest => (a, { s with sends := rest, calls := .send bs a sendNoSignal :: s.calls })
     | [] =>
       let a := if s.dead then SendAns.fail epipe else SendAns.accept bs.length
-      (a, { s with calls := .send bs a :: s.calls })
+      (a, { s with calls := .send bs a sendNoSignal :: s.calls })
   recv s n :=
     match s.recvs with
     | a :: rest => (a, { s with recvs := rest, calls := .recv n a :: s.calls })
@@ -247,7 +252,7 @@ def Script.world : World Script where
 /-- the raw bytes the kernel accepted, oldest first, reconstructed from the call log -/
 def wireOf : List Call → Bytes
   | [] => []
-  | .send bs (.accept k) :: older => wireOf older ++ bs.take k
+  | .send bs (.accept k) _ :: older => wireOf older ++ bs.take k
   | _ :: older => wireOf older
 
 def Script.wire (s : Script) : Bytes := wireOf s.calls
